@@ -388,6 +388,7 @@ class Response:
                 chunk_size = "%X\r\n" % nbytes
                 self.sock.sendall(chunk_size.encode('utf-8'))
             self.sock.sendfile(respiter.filelike, offset=offset, count=nbytes)
+            self.sent += nbytes
             if self.is_chunked():
                 self.sock.sendall(b"\r\n")
 
